@@ -404,14 +404,46 @@ def verify_contract(program, c, max_paths=None, lookup=None):
 
 # ---------------------------------------------------------------------------------------------- discharge
 
+_sk_counter = [0]
+
+
+def skolemise_goal(g):
+    """replace positively occurring universal quantifiers of a goal by fresh constants (sound for validity)"""
+    def sk(t, pos):
+        if t.op == 'forall' and pos:
+            m = {}
+            for v in t.args[0]:
+                _sk_counter[0] += 1
+                m[v] = tm.var('sk%d_%s' % (_sk_counter[0], v.args[0].replace('!', '_')), v.sort)
+            return sk(tm.substitute(t.args[1], m), pos)
+        if t.op == 'exists' and not pos:
+            m = {}
+            for v in t.args[0]:
+                _sk_counter[0] += 1
+                m[v] = tm.var('sk%d_%s' % (_sk_counter[0], v.args[0].replace('!', '_')), v.sort)
+            return sk(tm.substitute(t.args[1], m), pos)
+        if t.op == 'and' or t.op == 'or':
+            return tm.T(t.op, [sk(a, pos) for a in t.args], BOOL)
+        if t.op == 'not':
+            return tm.T('not', [sk(t.args[0], not pos)], BOOL)
+        if t.op == '=>':
+            return tm.T('=>', [sk(t.args[0], not pos), sk(t.args[1], pos)], BOOL)
+        return t
+    if g is None:
+        return None
+    _sk_counter[0] = 0
+    return sk(g, True)
+
+
 def obligation_text(ob, used_axioms=None, get_model=False):
     hyps = list(ob.hyps)
-    ax = axioms.instantiate(hyps, ob.goal, used=used_axioms)
-    text, vars_, apps = tm.script(hyps + ax, ob.goal, get_model=get_model)
+    goal = skolemise_goal(ob.goal)
+    ax = axioms.instantiate(hyps, goal, used=used_axioms)
+    text, vars_, apps = tm.script(hyps + ax, goal, get_model=get_model)
     return text
 
 
-def instantiate_quantifiers(hyps, goal, limit=600):
+def instantiate_quantifiers(hyps, goal, limit=200):
     """quantifier-free approximation: Skolemise the goal, instantiate every universally quantified hypothesis at the
     ground index terms of the problem.  unsat of the result implies unsat of the original (hypotheses only weakened)."""
     sk = {}
@@ -425,7 +457,33 @@ def instantiate_quantifiers(hyps, goal, limit=600):
                 m[v] = tm.var('sk%d_%s' % (counter[0], v.args[0]), v.sort)
             g = tm.substitute(g.args[1], m)
         return g
-    goal2 = skolemise(goal) if goal is not None else None
+    goal2 = skolemise_goal(goal) if goal is not None else None
+
+    def flatten(h, out):
+        if h.op == 'and':
+            for a in h.args:
+                flatten(a, out)
+        elif h.op == '=>' and h.args[1].op == 'forall':
+            q = h.args[1]
+            flatten(tm.forall(list(q.args[0]), tm.implies(h.args[0], q.args[1])), out)
+        elif h.op == '=>' and h.args[1].op == 'and':
+            for a in h.args[1].args:
+                flatten(tm.implies(h.args[0], a), out)
+        elif h.op == 'forall' and h.args[1].op == 'and':
+            for a in h.args[1].args:
+                flatten(tm.forall(list(h.args[0]), a), out)
+        elif h.op == 'forall' and h.args[1].op == '=>' and h.args[1].args[1].op == 'and':
+            for a in h.args[1].args[1].args:
+                flatten(tm.forall(list(h.args[0]), tm.implies(h.args[1].args[0], a)), out)
+        elif h.op == 'forall' and h.args[1].op == '=>' and h.args[1].args[1].op == 'forall':
+            inner = h.args[1].args[1]
+            flatten(tm.forall(list(h.args[0]) + list(inner.args[0]), tm.implies(h.args[1].args[0], inner.args[1])), out)
+        else:
+            out.append(h)
+    flat = []
+    for h in hyps:
+        flatten(h, flat)
+    hyps = flat
     ground = [h for h in hyps if h.op != 'forall']
     quants = [h for h in hyps if h.op == 'forall']
     # candidate index terms
@@ -481,14 +539,14 @@ def _work(args):
         st, dt, model = solver.check_text_inproc(text, int(budget * 1000))
         return idx, dict(status=st, backend='z3-5.1-inproc', seconds=dt, tried=[('z3-5.1-inproc', st, round(dt, 3))], model=None)
     r = solver.discharge(text, budget, backends, all_backends)
-    if r['status'] == 'unknown' and len(args) > 6 and args[6]:
+    if r['status'] in ('unknown', 'sat') and len(args) > 6 and args[6]:
         # quantifier-free instantiation (sound for unsat; a sat answer is a candidate counterexample only)
         r2 = solver.discharge(args[6], budget, backends, False)
         r2['tried'] = r['tried'] + [('qf-instantiated',) + tuple(t[1:]) for t in r2['tried']]
         if r2['status'] == 'unsat':
             r2['backend'] = (r2['backend'] or '') + '+qf-inst'
             return idx, r2
-        if r2['status'] == 'sat':
+        if r2['status'] == 'sat' and r['status'] != 'sat':
             r2['backend'] = (r2['backend'] or '') + '+qf-inst'
             r2['weakened'] = True
             return idx, r2
